@@ -1,5 +1,6 @@
 import McpModel.Base.Proto
 import McpModel.KeepAlive.Monitor
+import McpModel.KeepAlive.PeerReading
 /-!
 Driver for E9 (C13).  One record = one keep-alive scenario under virtual time.
 
@@ -72,7 +73,14 @@ def parseScenario (real : Bool) (toks : List String) : Option Scenario := do
   let tmnf ← match kv toks "tmnf" with
     | some v => natList v
     | none => some []
-  if I == 0 then none else
+  -- a record that says what the peer / the transport did with each ping (`wire=`): its outcome pattern must be
+  -- the property's reading of that (PeerReading.lean: `reading`), not one of the harness's own making
+  let wireOk : Bool := match kv toks "wire" with
+    | none => true
+    | some w => match parseWire w with
+      | some ws => decide (readWire ws = scripts)
+      | none => false
+  if I == 0 || !wireOk then none else
   return { real := real, I := I, t0 := t0, scripts := scripts, tc := tc, transientMnf := tmnf }
 
 def parseSess (toks : List String) : Option Scenario := do
